@@ -38,6 +38,10 @@ def cases(draw):
     g = draw(gg.general(inst_props=(RDF_TYPE, RDF_TYPE, RDF_TYPE, "http://ex.org/isA")))
     cfg = draw(gg.switches())
     cfg["instances_report_mode"] = "mixed"
+    if draw(st.integers(0, 3)) == 0:
+        cfg["detect_minimal_iri"] = True      # the stem is part of the shape expression: presentation options must keep it
+    if draw(st.integers(0, 5)) == 0:
+        cfg["inverse_paths"] = True
     target = draw(common.target_spec(g))
     thr = draw(st.sampled_from([0, 0, 0, 0.5, 1 / 3, 1]))
     opt = draw(st.sampled_from(OPTIONS))
@@ -145,6 +149,12 @@ def check(case):
     labels = {"opt:" + opt}
     strip = opt == "shapes_namespace"
     sa, sb = structure(a, strip), structure(b, strip)
+
+    def stems(cd):
+        return {(refmodel.local_name(lab) if strip else lab): cs.stem for lab, cs in cd.items() if lab != "__dup_labels__" and cs.stem is not None}
+    pre_viol = []
+    if stems(a) != stems(b):
+        pre_viol.append("IRI stems differ: %s vs %s" % (stems(a), stems(b)))
     M, sel, label_of = common.model_for(case, triples)
     nt = False
     viol = []
@@ -261,6 +271,7 @@ def check(case):
                     viol.append("%s %s: cardinality %s vs %s" % (lab, k, x[1], y[1]))
             if any(len(e["facts"]) >= 2 for e in base[lab].cons.values()):
                 nt = True
+    viol = pre_viol + list(viol)
     if nt:
         labels.add("nontrivial")
     if viol:
